@@ -363,8 +363,22 @@ func Render(s *Scen) gjs.Prog {
 				us[0]["_"+pkgPath(q)] = true
 			}
 		}
+		// In every other program the files of a multi-file package start with a //line
+		// directive (as goyacc / cgo output does) that claims a name sorting the other way
+		// round than the real one: the file order depends on the real names only.
+		claimed := map[int]string{}
+		if ids := s.Files[p-1]; len(ids) > 1 && lineDirectives(s) {
+			sorted := append([]int{}, ids...)
+			sort.Slice(sorted, func(i, j int) bool { return NamePool[sorted[i]-1] < NamePool[sorted[j]-1] })
+			for i, n := range sorted {
+				claimed[n] = fmt.Sprintf("claimed_%02d.y", len(sorted)-i)
+			}
+		}
 		for f, name := range s.Files[p-1] {
 			var b strings.Builder
+			if cn := claimed[name]; cn != "" {
+				b.WriteString("//line " + cn + ":1\n")
+			}
 			b.WriteString("package " + pkgName(p) + "\n\n")
 			var imps []string
 			for k := range us[f] {
@@ -405,4 +419,19 @@ func Render(s *Scen) gjs.Prog {
 		files["rt/rt.go"] = rtSrc
 	}
 	return gjs.Prog{Files: files}
+}
+
+// lineDirectives selects (by the shape of the scenario, so that a replay renders the
+// same text) the programs whose files carry //line directives.
+func lineDirectives(s *Scen) bool {
+	n := 0
+	for _, fs := range s.Files {
+		for _, f := range fs {
+			n += f
+		}
+	}
+	for _, im := range s.Imp {
+		n += 3 * len(im)
+	}
+	return n%2 == 1
 }
